@@ -320,7 +320,7 @@ struct E2
             {
                 Op q;
                 q.k    = OpK::FindRange;
-                q.span = 131;
+                q.span = (int16_t)((a.longrange > 1 ? a.longrange : 130) + 1);
                 q.peek = 1;
                 s += " all=" + ad.apply(q).str();
             }
@@ -661,7 +661,7 @@ struct E2
     void run_longrange()
     {
         t0 = wall();
-        const int N = 130;
+        const int N = a.longrange > 1 ? a.longrange : 130; // --longrange 1: 130 entries; --longrange N: N entries (N <= 32000)
         auto span = [&](OpK k, int allow, int peek) {
             Op o;
             o.k      = k;
@@ -697,11 +697,11 @@ struct E2
         Op fill    = span(OpK::InsertRange, 3, 0);
         fill.wid[0] = 10000;
         std::vector<Pre> pres;
-        pres.push_back({"130 live", {fill}});
+        pres.push_back({std::to_string(N) + " live", {fill}});
         if (T.ttl_cache || T.ttl_map)
-            pres.push_back({"130 expired", {fill, adv(2 * MS)}});
+            pres.push_back({std::to_string(N) + " expired", {fill, adv(2 * MS)}});
         if (ck == CK::lfuda)
-            pres.push_back({"130 idle", {fill, adv(2 * MS + 1)}});
+            pres.push_back({std::to_string(N) + " idle", {fill, adv(2 * MS + 1)}});
         std::vector<Op> big;
         big.push_back(span(OpK::FindRange, 3, T.has_peek ? 1 : 0));
         if (T.has_peek)
@@ -713,11 +713,13 @@ struct E2
             big.push_back(plain(OpK::Clean));
         if (T.has_dynage)
             big.push_back(plain(OpK::DynAge));
+        if (T.has_clear)
+            big.push_back(plain(OpK::Clear)); // (seed C20f: ut_map clear() in batches of 4096 with the lock dropped in between)
         std::vector<std::vector<Op>> small;
         small.push_back({one(OpK::Insert, 100, 3)});
         small.push_back({one(OpK::Erase, 100)});
         small.push_back({one(OpK::Find, 100)});
-        small.push_back({one(OpK::Insert, 131, 3)});
+        small.push_back({one(OpK::Insert, N + 1, 3)});
         small.push_back({plain(OpK::Size)});
         if (T.has_uc)
             small.push_back({one(OpK::FindUC, 1, 3, 1), one(OpK::FindUC, N, 3, 1)});
@@ -841,7 +843,7 @@ struct E2
         if (a.alloc_points)
             body += "allocpoints " + std::to_string(a.alloc_points) + "\n";
         if (a.longrange)
-            body += "longrange 1\n";
+            body += "longrange " + std::to_string(a.longrange) + "\n";
         body += "schedule";
         for (int c : choices)
             body += " " + std::to_string(c);
@@ -1383,8 +1385,8 @@ struct E2
                 a.clocked = 1;
             else if (!strncmp(line, "allocpoints ", 12))
                 a.alloc_points = atoi(line + 12);
-            else if (!strncmp(line, "longrange 1", 11))
-                a.longrange = 1;
+            else if (!strncmp(line, "longrange ", 10))
+                a.longrange = atoi(line + 10);
             else if (!strncmp(line, "props C", 7))
                 a.prop = atoi(line + 7);
             else if (!strncmp(line, "clause ", 7))
@@ -1596,8 +1598,8 @@ int main(int argc, char** argv)
         return e.run_replay();
     if (a.longrange)
     {
-        e.cfg.cap = 200;
-        a.cfg.cap = 200;
+        e.cfg.cap = a.longrange > 1 ? a.longrange + 70 : 200;
+        a.cfg.cap = e.cfg.cap;
         e.run_longrange();
     }
     else if (a.clocked)
